@@ -10,7 +10,8 @@ from ..impl import vname
 RULE = ('histories over {var, and, not-and, xor, incref, release-at-zero, decref, collect, collect(roots), swap, '
         'ite on a recycled cache key}: all sequences up to length L over a 13-letter alphabet '
         '(3 variables) exhaustively (L=4 quick, 5 thorough) and long random histories; a case is '
-        'one step of one history; distinct by the history prefix')
+        'one step of one history; distinct by the history prefix; copies into a second manager whose '
+        'dynamic reordering is enabled and due (no collection may run inside the copy)')
 EXHAUSTIVE = {'quick': True, 'thorough': True}
 ASSUMES = ['a release on a node whose count is 0 is documented as having no effect: exercised; a release that '
            'drops a count below the number of stored edges is a caller error and is not generated']
@@ -352,3 +353,12 @@ def run(ctx):
         LETTERS = saved
     for _ in range(6 if q else 60):
         random_history(ctx, 60 if q else 200)
+    # copies INTO a manager whose dynamic reordering is enabled and due: a reordering served in
+    # the middle of the copy would start with a collection that frees the copy's unheld
+    # intermediate results (round-21 seed: the guard of `copy_bdd` put on the source manager)
+    from . import C11
+    rng = ctx.rng
+    for _ in range(4 if q else 40):
+        n_ = rng.choice([3, 4, 5])
+        C11.dyn_stream(ctx, n_, tuple(rng.sample(range(n_), n_)), tuple(rng.sample(range(n_), n_)),
+                       [rng.getrandbits(1 << n_) for _ in range(3)], P='C06')
